@@ -212,8 +212,12 @@ def run(ctx):
     # ---------------------------------------------------------------- R05.4
     fcs = mdl.func('path.Path.continuous_subpaths')
 
-    def th_cont(it):
+    def th_cont(it, closed_flag=False):
         p, segs = mk_path(it, lengths=False)
+        if closed_flag:
+            # the internal flag a parsed `Z` (or the deprecated attribute) leaves behind: the predicates are about the segments as they
+            # are now, not about how the path was once written
+            p.attrs['_closed'] = True
         cont = it.call_method(p, 'iscontinuous')
         subs = it.call_method(p, 'continuous_subpaths')
         joints = [path_sign(it, segs[k].attrs['end'] - segs[k + 1].attrs['start']) for k in range(N - 1)]
@@ -252,6 +256,8 @@ def run(ctx):
     for nm, f in (('iscontinuous', mdl.func('path.Path.iscontinuous')), ('continuous_subpaths', fcs), ('isclosed', mdl.func('path.Path.isclosed'))):
         ob('R05.4').run(f, 'continuity predicates on %d segments with independent end points (%s)' % (N, nm), th_cont, judge_cont,
                         allowed_raises=('AssertionError',))
+    ob('R05.4').run(mdl.func('path.Path.iscontinuous'), 'continuity predicates on a path that carries the closed flag of an earlier state',
+                    lambda it: th_cont(it, True), judge_cont, allowed_raises=('AssertionError',))
     # isclosed <=> start == end (under its own assertions)
     fic = mdl.func('path.Path.isclosed')
 
@@ -268,3 +274,42 @@ def run(ctx):
         return ok, '' if ok else 'isclosed()=%r although start %s end' % (r, '==' if cl == frozenset('0') else '!=')
     ob('R05.4').run(fic, 'isclosed() <=> start == end on a continuous path', th_closed, judge_closed, allowed_raises=('AssertionError',),
                     opts={'call_hooks': {'path.Path.iscontinuous': lambda it, a, k: True}})
+    _concat_rule(ctx, mdl)
+
+
+def _concat_rule(ctx, mdl):
+    """concatpaths(parts) is the path of the parts' own segments, in order, untouched: in particular
+    concatpaths(p.continuous_subpaths()) == p for a path with breaks of any size (a break of rounding size is still a break)."""
+    try:
+        fc = mdl.func('path.concatpaths')
+    except Exception:
+        return
+    CLS = {2: 'path.Line', 3: 'path.QuadraticBezier', 4: 'path.CubicBezier'}
+
+    def th(it):
+        # end points are independent symbols: adjacent ones may or may not coincide, exactly or approximately
+        shapes = [(2, 'a'), (3, 'b'), (4, 'c'), (2, 'd')]
+        segs = [it.construct(CLS[n], *cpoints(n, nm)) for n, nm in shapes]
+        parts = [it.construct('path.Path', segs[0]), it.construct('path.Path', segs[1], segs[2]), it.construct('path.Path', segs[3])]
+        from svtstatic import builtins_model as bm
+        it.call_hooks['misctools.isclose'] = lambda it2, a, k: bm.call_ext(it2, 'numpy.isclose', a, k)
+        r = it.call(it.closure_of('path.concatpaths'), [parts], {})
+        got = list(r.attrs['_segments'])
+        return [(g is s, g.cls.name if isinstance(g, Obj) else None, g.attrs if isinstance(g, Obj) else None) for g, s in zip(got, segs)], len(got), segs
+
+    def judge(v):
+        rows, n, segs = v
+        if n != len(segs):
+            return False, '%d segments come back for %d' % (n, len(segs))
+        for i, (same, cname, attrs) in enumerate(rows):
+            if same:
+                continue
+            # a rebuilt segment is acceptable only if it is the same curve
+            s = segs[i]
+            if cname != s.cls.name:
+                return False, 'segment %d comes back as a %s' % (i, cname)
+            for k_ in ('start', 'control', 'control1', 'control2', 'end'):
+                if k_ in s.attrs and not to_rat(attrs.get(k_, 0)).equals(to_rat(s.attrs[k_])):
+                    return False, 'segment %d comes back with another %s (%s instead of %s)' % (i, k_, short(attrs.get(k_), 20), short(s.attrs[k_], 20))
+        return True, ''
+    Obligation(ctx, 'R05.4').run(fc, 'concatpaths keeps every segment of its parts as it is, in order (breaks of any size stay breaks)', th, judge)
